@@ -121,7 +121,8 @@ def case_variant(rng, labels):
 class Pool:
     """names that share suffixes (drives compression) with case-variant repeats"""
 
-    def __init__(self, rng, nsuffix=4, plain=True):
+    def __init__(self, rng, nsuffix=4, plain=True, case_variants=True):
+        self.case_variants = case_variants
         self.rng = rng
         self.suffixes = [tuple(simple_label(rng) for _ in range(rng.randint(1, 3))) + (b"",) for _ in range(nsuffix)]
         self.suffixes.append((b"",))
@@ -133,7 +134,7 @@ class Pool:
         r = rng.random()
         if self.made and r < 0.15:
             return rng.choice(self.made)
-        if self.made and r < 0.25:
+        if self.made and r < 0.25 and self.case_variants:
             return case_variant(rng, rng.choice(self.made))
         suf = rng.choice(self.suffixes)
         k = rng.choice((0, 1, 1, 1, 2, 3))
